@@ -68,6 +68,7 @@ def Op.argsValid (lb : LB) : Op → Bool
   | .deleteRange a b => a ≤ b && boundaryB lb.buf a && boundaryB lb.buf b
   | .insertStr i _ => boundaryB lb.buf i
   | .setPos p => boundaryB lb.buf p
+  | .indent _ k _ => decide (k ≤ 255)   -- `amount : u8` in the code (the wire rejects larger values too)
   | _ => true
 
 /-- well-formed state: cursor on a boundary; with a fixed capacity the text fits -/
